@@ -52,8 +52,50 @@ var enumStrings = []string{"red", "green", "blue", "802.1q", "up-down", "Mixed_C
 	// symbol-class, control and combining characters (neither letter, digit, punctuation nor space)
 	"rx+tx", "lt<gt", "key=val", "p|q", "~tilde", "c^d", "$var", "tab\tsep", "e\u0301acute", "`tick`"}
 
+// chainFriendlySchema is the shape reference-heavy histories need to get deep into the
+// commit-time reference rules and that a freely drawn schema rarely has all at once: a root
+// table holding rows of a non-root table, whose rows refer to each other (so that letting go of
+// one row is collected in several rounds), and a root table that watches them through weak
+// references (a set, and a map's values or an optional column) next to plain columns.
+func chainFriendlySchema(t *rapid.T) Schema {
+	node := TableName(1)
+	strong := func() Base { return Base{T: TUUID, Ref: &Ref{Table: node}} }
+	weak := func() Base { return Base{T: TUUID, Ref: &Ref{Table: node, Weak: true}} }
+	next := Col{Name: ColName(0), Key: strong(), Min: 0, Max: -1}
+	if rapid.Bool().Draw(t, "nextoptional") {
+		next.Max = 1
+	}
+	third := Col{Name: ColName(2), Key: Base{T: TInt}, Min: 1, Max: 1}
+	switch rapid.IntRange(0, 2).Draw(t, "watcherthird") {
+	case 0:
+		v := weak()
+		third = Col{Name: ColName(2), Key: Base{T: TStr}, Value: &v, Min: 0, Max: -1}
+	case 1:
+		third = Col{Name: ColName(2), Key: weak(), Min: 0, Max: 1}
+	}
+	Label("generator", "schema:chain-friendly")
+	return Schema{Name: "DB", Version: "1.0.0", Tables: []Table{
+		{Name: TableName(0), IsRoot: true, Cols: []Col{
+			{Name: ColName(0), Key: strong(), Min: 0, Max: -1},
+			{Name: ColName(1), Key: Base{T: TInt}, Min: 1, Max: 1},
+		}},
+		{Name: node, Cols: []Col{
+			next,
+			{Name: ColName(1), Key: Base{T: TInt}, Min: 1, Max: 1},
+		}},
+		{Name: TableName(2), IsRoot: true, Cols: []Col{
+			{Name: ColName(0), Key: weak(), Min: 0, Max: -1},
+			{Name: ColName(1), Key: Base{T: TStr}, Min: 1, Max: 1},
+			third,
+		}},
+	}}
+}
+
 // GenSchema draws a schema.
 func GenSchema(t *rapid.T, p Profile) Schema {
+	if p.Refs >= 5 && p.Roots && p.Indexes == 0 && !p.FancyNames && rapid.IntRange(0, 4).Draw(t, "chainfriendly") == 0 {
+		return chainFriendlySchema(t)
+	}
 	nt := rapid.IntRange(p.MinTables, p.MaxTables).Draw(t, "ntables")
 	s := Schema{Name: "DB", Version: "1.0.0"}
 	names := make([]string, nt)
